@@ -90,6 +90,12 @@ inductive Act where
   | govDeposit (pid amt : Nat)
   /-- `MsgSubmitProposal{proposer: the gov module account}` with an initial deposit, no messages of its own -/
   | govSubmit (initial : Nat) (expedited : Bool)
+  /-- ABSTRACT (round 5): any other message whose signer is the gov module account and whose handler moves `amt` of the
+  deposit denomination OUT of that account to `to` — bank `MsgSend` / `MsgMultiSend` from the gov account,
+  `MsgFundCommunityPool{depositor: gov}`, `MsgDelegate{delegator: gov}` … — all of them legal proposal messages (the only
+  signer is the gov account, a handler is routed).  The gov module account holds nothing but the escrowed deposits, so the
+  coins such a message moves ARE deposits of open proposals. -/
+  | govSpend (amt : Nat) (to : Addr)
   deriving Repr, DecidableEq
 
 structure Msg where
@@ -183,6 +189,8 @@ structure State where
   burned : Nat := 0
   charged : Nat := 0
   credited : Nat := 0
+  /-- ghost: what messages of passed proposals moved out of the gov module account (`Act.govSpend`) -/
+  spent : Nat := 0
   deriving Repr
 
 def init : State := {}
@@ -346,30 +354,61 @@ def reaches (total : Nat) (m : MinCoins) : Bool :=
     | _, some _ => false
   else false
 
+/-! ### the custom-parameter look-ups, statement by statement (round 5)
+
+`GetCustomMsgVotingPeriod` and `GetCustomMsgQuorum` are no longer two flags ("has the expected shape"): their top-level
+statements are regenerated as (kind, argument) pairs (`customPeriodSteps`, `customQuorumSteps`) and INTERPRETED here in source
+order — which type url the look-up uses, under which condition which expression is returned. -/
+
+/-- the value of a returned expression: a field of the entry in scope (the zero value when none is), or the default argument -/
+def lookupValue (c : Option Custom) (dflt : Nat) (what : String) : Nat :=
+  if what == "customParams.VotingPeriod" then (c.map (·.votingPeriod)).getD 0
+  else if what == "customParams.Quorum" then (c.map (·.quorum)).getD 0
+  else if what == "customParams.DepositRatio" then (c.map (·.depositRatio)).getD 0
+  else if what == "defaultVotingPeriod" || what == "defaultQuorum" then dflt
+  else 0
+
+/-- locals of a look-up: `msgType`, the value returned so far -/
+structure LookupLocals where
+  ty : Ty := []
+  ret : Option Nat := none
+
+/-- one top-level statement of a look-up -/
+def lookupStep (custom : List (Ty × Custom)) (msgs : List Msg) (dflt : Nat) (l : LookupLocals) (st : String × String) : LookupLocals :=
+  if l.ret.isSome then l else
+  if st.1 == "msgType" then { l with ty := typeUrlBy st.2 msgs }
+  else if st.1 == "ifFound" then
+    (match getCustom custom l.ty with
+     | some c => { l with ret := some (lookupValue (some c) dflt st.2) }
+     | none => l)
+  else if st.1 == "ifNotFound" then
+    (match getCustom custom l.ty with
+     | some _ => l
+     | none => { l with ret := some (lookupValue none dflt st.2) })
+  else if st.1 == "return" then { l with ret := some (lookupValue none dflt st.2) }
+  else l
+
+/-- a look-up, statement by statement in SOURCE ORDER -/
+def lookupRun (prog : List (String × String)) (custom : List (Ty × Custom)) (msgs : List Msg) (dflt : Nat) : Nat :=
+  ((prog.foldl (lookupStep custom msgs dflt) {}).ret).getD dflt
+
+/-- `GetCustomMsgVotingPeriod(ctx, dflt, proposal)` -/
+def customPeriodOf (custom : List (Ty × Custom)) (msgs : List Msg) (dflt : Nat) : Nat := lookupRun customPeriodSteps custom msgs dflt
+/-- `GetCustomMsgQuorum(ctx, dflt, proposal)` -/
+def customQuorumOf (custom : List (Ty × Custom)) (msgs : List Msg) (dflt : Nat) : Nat := lookupRun customQuorumSteps custom msgs dflt
+
 /-- the period used when voting starts (`ActivateVotingPeriod`) -/
 def activationPeriod (s : State) (p : Proposal) : Nat :=
   let dflt := if activationDefaultByExpedited && p.expedited then s.params.expVotingPeriod else s.params.votingPeriod
-  if activationUsesCustomPeriod && customPeriodLookupOk then
-    match getCustom s.custom (propTypeP p.msgs) with
-    | some c => c.votingPeriod
-    | none => dflt
-  else dflt
+  if activationUsesCustomPeriod then customPeriodOf s.custom p.msgs dflt else dflt
 
 /-- the period used when a failed expedited proposal becomes a regular one (`EndBlocker`) -/
 def conversionPeriod (s : State) (p : Proposal) : Nat :=
-  if conversionUsesCustomPeriod && customPeriodLookupOk then
-    match getCustom s.custom (propTypeP p.msgs) with
-    | some c => c.votingPeriod
-    | none => s.params.votingPeriod
-  else s.params.votingPeriod
+  if conversionUsesCustomPeriod then customPeriodOf s.custom p.msgs s.params.votingPeriod else s.params.votingPeriod
 
 /-- the quorum used by `Tally` -/
 def quorumFor (s : State) (p : Proposal) : Nat :=
-  if tallyQuorumByType && customQuorumLookupOk then
-    match getCustom s.custom (propTypeQ p.msgs) with
-    | some c => c.quorum
-    | none => s.params.quorum
-  else s.params.quorum
+  if tallyQuorumByType then customQuorumOf s.custom p.msgs s.params.quorum else s.params.quorum
 
 /-! ## tally arithmetic (`x/gov/keeper/tally.go`) -/
 
@@ -640,12 +679,8 @@ def activateStep (l : ActLocals) (tag : String) : ActLocals :=
   else if tag == "periodByExpedited" then
     { l with period := if l.p.expedited then l.s.params.expVotingPeriod else l.s.params.votingPeriod }
   else if tag == "customPeriod" then
-    -- `GetCustomMsgVotingPeriod(ctx, votingPeriod, proposal)`: its body is read separately (`customPeriodLookupOk`, `periodLookupType`)
-    (if customPeriodLookupOk then
-      match getCustom l.s.custom (propTypeP l.p.msgs) with
-      | some c => { l with period := c.votingPeriod }
-      | none => l
-     else l)
+    -- `votingPeriod = GetCustomMsgVotingPeriod(ctx, votingPeriod, proposal)`: its body is interpreted (`customPeriodSteps`)
+    { l with period := customPeriodOf l.s.custom l.p.msgs l.period }
   else if tag == "endTime=start+period" then { l with endT := l.p.votingStart + l.period }
   else if tag == "setVotingEnd" then { l with p := { l.p with votingEnd := l.endT } }
   else if tag == "setStatusVoting" then { l with p := { l.p with status := .voting } }
@@ -852,6 +887,15 @@ def execMsg (m : Msg) (s : State) : Option State :=
     | some c => if c.valid then some { s with custom := setCustom s.custom url c } else none
   | .govDeposit pid amt => addDepositGov s pid amt
   | .govSubmit initial expedited => submitGov s initial expedited
+  -- the bank transfer out of the gov module account: succeeds whenever the balance covers it — nothing tells escrow from funds
+  | .govSpend amt to =>
+    if s.gov < amt then none else some { s with gov := s.gov - amt, bal := credit s.bal to amt, spent := s.spent + amt }
+
+/-- does this message move coins out of the gov module account when it runs? -/
+def spendsEscrow (m : Msg) : Bool := match m.act with | .govSpend _ _ => true | _ => false
+
+/-- no message of the list spends from the gov module account -/
+def noGovSpend (ms : List Msg) : Bool := ms.all (fun m => !spendsEscrow m)
 
 /-- the message loop on `cacheCtx`: stops at the first failure -/
 def execMsgs : List Msg → State → Option State
@@ -958,6 +1002,20 @@ def deleteVotesRun (pid : Nat) (s : State) : State :=
 burnAmount`, `charges += burnAmount` -/
 def chargeCoinOk : Bool :=
   sdkChargeCoin == ["burnAmount=trunc(amount*rate)", "remaining+=amount-burnAmount", "charges+=burnAmount"]
+
+/-- one statement of the loop over the coins of one deposit, on (`burnAmount`, `remainingAmount`, `cancellationCharges`) — the
+faithful reading of the regenerated tags (round 5); `chargeBodyStep` below still uses the closed form under the flag
+`chargeCoinOk`, `Props.charge_coin_loop_statements` proves the two equal for every rate ≤ 1 (which `Params.valid` enforces) -/
+def chargeCoinStep (rate amt : Nat) (acc : Nat × Nat × Nat) (tag : String) : Nat × Nat × Nat :=
+  if tag == "burnAmount=trunc(amount*rate)" then (mulTrunc amt rate, acc.2.1, acc.2.2)
+  else if tag == "remaining+=amount-burnAmount" then (acc.1, acc.2.1 + (amt - acc.1), acc.2.2)
+  else if tag == "charges+=burnAmount" then (acc.1, acc.2.1, acc.2.2 + acc.1)
+  else acc
+
+/-- the coin loop for the one coin of a deposit, statement by statement: the new (`remainingAmount`, `cancellationCharges`) -/
+def chargeCoinRun (rate amt keep chg : Nat) : Nat × Nat :=
+  let r := sdkChargeCoin.foldl (chargeCoinStep rate amt) (0, keep, chg)
+  (r.2.1, r.2.2)
 
 /-- locals of `ChargeDeposit`: module balance, account balances, `remainingAmount` of the current deposit,
 `cancellationCharges`, a failed bank transfer -/
@@ -1207,9 +1265,54 @@ def addVoteRun (s : State) (pid : Nat) (voter : Addr) (opts : List (Opt × Nat))
   | (_, _, some e) => .error e
   | (s', _, none) => .ok s'
 
-/-- `MsgVote` / `MsgVoteWeighted` (SDK message server): validation of the options, then `AddVote` -/
+/-! ### `msgServer.VoteWeighted` of the SDK, statement by statement (round 5)
+
+The validation of the weighted options is no longer hand-copied (`optsValid`): the top-level statements of the SDK's
+`VoteWeighted`, the body of its loop over the options and the statements of `WeightedVoteOption.IsValid` are regenerated from
+the module cache (`sdkVoteWeightedSteps`, `sdkVoteWeightedLoop`, `sdkWeightedOptionValid`) and interpreted here. -/
+
+/-- locals of `VoteWeighted`: `totalWeight`, `usedOptions`, an error returned -/
+structure VoteLocals where
+  total : Nat := 0
+  used : List Opt := []
+  rejected : Bool := false
+
+/-- `WeightedVoteOption.IsValid` for a weight `w`·10^-18 (the four options of the model are the valid ones) -/
+def weightedOptionValid (w : Nat) : Bool :=
+  if sdkWeightedOptionValid.contains "falseUnlessPositiveAndAtMostOne" then decide (0 < w) && decide (w ≤ DEC) else true
+
+/-- one statement of the body of the loop over the options -/
+def voteLoopStep (o : Opt × Nat) (l : VoteLocals) (tag : String) : VoteLocals :=
+  if l.rejected then l else
+  if tag == "rejectInvalidOption" then (if !weightedOptionValid o.2 then { l with rejected := true } else l)
+  else if tag == "total+=weight" then { l with total := l.total + o.2 }
+  else if tag == "rejectDuplicate" then (if l.used.contains o.1 then { l with rejected := true } else l)
+  else if tag == "markUsed" then { l with used := o.1 :: l.used }
+  else l
+
+/-- the loop over the options -/
+def voteOptionLoop : List (Opt × Nat) → VoteLocals → VoteLocals
+  | [], l => l
+  | o :: r, l => voteOptionLoop r (sdkVoteWeightedLoop.foldl (voteLoopStep o) l)
+
+/-- one top-level statement of `VoteWeighted` before `AddVote` -/
+def voteTopStep (opts : List (Opt × Nat)) (l : VoteLocals) (tag : String) : VoteLocals :=
+  if l.rejected then l else
+  if tag == "rejectEmpty" then (if opts.isEmpty then { l with rejected := true } else l)
+  else if tag == "total0" then { l with total := 0 }
+  else if tag == "used0" then { l with used := [] }
+  else if tag == "optionLoop" then voteOptionLoop opts l
+  else if tag == "rejectTotalGT1" then (if DEC < l.total then { l with rejected := true } else l)
+  else if tag == "rejectTotalLT1" then (if l.total < DEC then { l with rejected := true } else l)
+  else l
+
+/-- does `VoteWeighted` reach `AddVote`?  The statements before the tag `addVote`, in source order -/
+def voteWeightedAccepts (opts : List (Opt × Nat)) : Bool :=
+  !((sdkVoteWeightedSteps.takeWhile (fun t => t != "addVote")).foldl (voteTopStep opts) {}).rejected
+
+/-- `MsgVote` / `MsgVoteWeighted` (SDK message server): validation of the options — interpreted —, then `AddVote` -/
 def vote (s : State) (pid : Nat) (voter : Addr) (opts : List (Opt × Nat)) : Except String State :=
-  if !optsValid opts then .error "err:vote" else addVoteRun s pid voter opts
+  if !voteWeightedAccepts opts then .error "err:vote" else addVoteRun s pid voter opts
 
 /-! ## operations -/
 
@@ -1256,5 +1359,13 @@ def step (s : State) : Op → State × String
 def run (s : State) : List Op → State
   | [] => s
   | o :: r => run (step s o).1 r
+
+/-- the operation submits no proposal that carries a message spending from the gov module account -/
+def opNoGovSpend : Op → Bool
+  | .submit _ msgs _ _ => noGovSpend msgs
+  | _ => true
+
+/-- **`NoGovSpend`**: no proposal of the history carries a message that spends from the gov module account -/
+def NoGovSpend (ops : List Op) : Bool := ops.all opNoGovSpend
 
 end FxVerif.Model.C15
